@@ -355,7 +355,10 @@ def record_only_lowered_rule(ctx: Ctx, rid: str):
                 continue
             base = a.targets[0].value
             based = norm(base)
-            vals = res(base) if isinstance(base, ast.Name) else [base]
+            root = base
+            while isinstance(root, (ast.Subscript, ast.Attribute)):
+                root = root.value                     # records / usage[slot] / self.x.slotTaskUsage[slot]: the name the path starts from
+            vals = res(root) if isinstance(root, ast.Name) else [base]
             if "slotTaskUsage" not in based and not any("slotTaskUsage" in norm(v) for v in vals):
                 continue
             new = norm(a.value.elts[1])
@@ -373,10 +376,10 @@ def record_only_lowered_rule(ctx: Ctx, rid: str):
                 lt = isinstance(e.ops[0], ast.Lt) and p or isinstance(e.ops[0], ast.GtE) and not p
                 if (gt and r == new and l != new) or (lt and l == new and r != new):
                     ok = True
-                if gt and r in ("0", "0.0") and isinstance(e.left, ast.Name):
-                    for v in res(e.left):
+                if gt and r in ("0", "0.0"):
+                    for v in (res(e.left) if isinstance(e.left, ast.Name) else [e.left]):
                         if isinstance(v, ast.BinOp) and isinstance(v.op, ast.Sub) and norm(v.right) == new:
-                            ok = True
+                            ok = True             # previous - new > 0, written in place or through a name
             ctx.ob(rid, f"{fn.qual}: {norm(a)[:70]}", (fn, a), ok,
                    "the record is replaced only when it held more than the new amount" if ok else
                    f"the record is set to {new} whatever it held before: a member that had less of the slot left than the task ends up using gets "
